@@ -38,7 +38,7 @@ func init() {
 		},
 		Needs: []string{"owsim"},
 		Workloads: []core.Workload{
-			{Name: "graphs", Variant: "plain", N: core.Tiered(120, 6000), Run: c07Case, TimeoutS: 300},
+			{Name: "graphs", Variant: "plain", N: core.Tiered(120, 3000), Run: c07Case, TimeoutS: 300},
 		},
 		RequireTags: func(string) []string {
 			return []string{"graph:empty-batch", "graph:fan-in", "graph:no-stored-inputs", "flags:split-outputs", "flags:final-states", "trace:writer-behind", "trace:checked"}
